@@ -53,6 +53,12 @@ open Narwhal.Generated in
 /-- table obligation: the source generates ids exactly this way (a 32-bit counter stepped by `wrapping_add(1)`, 0 skipped) -/
 theorem client_ids_table_ok : clientIdsFullU32 = true := by decide
 
+open Narwhal.Generated in
+/-- table obligation for the `timeout` step of `Model/Client.lean` (an in-flight request that is dropped returns its permit): in
+    `perform_request` the drop guard of the pending entry — which owns the permit — exists before the first suspension point after
+    the entry was inserted, so a request dropped while it still waits for the writer's queue gives both back -/
+theorem client_cancel_safe_table_ok : clientPendingGuardBeforeSend = true := by decide
+
 example : idAfter 3 4294967294 = 2 := by decide
 
 end Narwhal.Client
@@ -60,3 +66,4 @@ end Narwhal.Client
 #print axioms Narwhal.Client.C16_ids_nonzero
 #print axioms Narwhal.Client.C16_ids_distinct_in_window
 #print axioms Narwhal.Client.client_ids_table_ok
+#print axioms Narwhal.Client.client_cancel_safe_table_ok
